@@ -267,7 +267,8 @@ fn verdicts(schema: &Schema, v: &J) -> Result<J, String> {
     for e in v.get("entities").and_then(|x| x.as_array()).unwrap_or(&empty) {
         ents.push(match Entities::from_json_value(e.clone(), Some(schema)) {
             Ok(es) => json!({"ok": es.iter().count()}),
-            Err(err) => json!({"error": variant(&err), "msg": util::chain(&err).chars().take(300).collect::<String>()}),
+            // (class only: with several faults in one set the reported one depends on hash-map order)
+            Err(err) => json!({"error": variant(&err)}),
         });
     }
     Ok(json!({"policies": pol, "requests": reqs, "entities": ents}))
